@@ -40,6 +40,7 @@ type Contract struct {
 	Assigns    []*Clause // location expressions
 	HasAssigns bool
 	MayPanic   bool
+	NoAlloc    bool // the function creates no object that its caller can reach (results and stored values existed before)
 	Trusted    bool
 	Inline     bool
 	Iface      bool // interface method contract
@@ -430,6 +431,8 @@ func (P *Program) loadContractFile(file string) error {
 			}
 		case "maypanic":
 			cur.MayPanic = true
+		case "noalloc":
+			cur.NoAlloc = true
 		case "trusted":
 			cur.Trusted = true
 			cur.NoVerify = true
